@@ -7,7 +7,7 @@ BOUNDS = {
              "arbitrary valid state, plate 2x2 and trough 3x2; (B) IEEE-754 binary64, bit-precise: one add/remove addressing one well of a plate 1x2 / "
              "trough 2x1 with v, volume, min_volume, max_volume ranging over all doubles (state finite, volume incl. +-inf and NaN): decides exact-limit and "
              "one-ulp cases; (C) every worklist entry point (aspirate, dispense, transfer with splitting, distribute, evo_aspirate, evo_dispense) on both "
-             "devices with k<=2: post-conditions on normal return and exception type on rejection",
+             "devices with k<=2: post-conditions on normal return and exception type on rejection; (A') the same with the state built by the public constructor from integer-valued initial volumes (list of ints / int scalar) and symbolic limits",
     "thorough": "(A) k<=3 and plates 2x3/8x2, trough 8x1; (B) additionally plate 2x2 with the second well addressed as well (Real only for repeats); (C) k<=2 with 4 candidates, <=3 split steps",
 }
 OUTSIDE = "states with max_volume = inf (constructor accepts them: C20); rounding effects of >=2 chained float additions on one well (decided in Real arithmetic only); k beyond the bound"
